@@ -124,6 +124,9 @@ impl InnerLocustDB {
                 let tables = locustdb.tables.read().unwrap();
                 let table = tables.get(&table_name).unwrap();
                 let rows = data.len() as u64;
+                if rows == 0 {
+                    continue;
+                }
                 // TODO: eliminate conversion
                 if !table.columns_names_loaded() {
                     let column_names = locustdb
@@ -316,6 +319,10 @@ impl InnerLocustDB {
             let tables = self.tables.read().unwrap();
             let table = tables.get(&table).unwrap();
             let rows = data.len() as u64;
+            if rows == 0 {
+                // Nothing to append (Buffer::push_typed_cols requires at least one row)
+                continue;
+            }
             // TODO: eliminate conversion
             let columns = data
                 .into_columns()
